@@ -41,7 +41,21 @@ static bool build(ST& st, const State& s) {
     st.initialize_filtration();
     return true;
   }
-  // variant 1: add the first absent simplex whose facets are present (largest dimension first), then remove it again
+  if (s.variant == 3) {
+    // filtration cache built, THEN the complex grows (the cache is stale and smaller: the caller's business as far as
+    // the filtration range goes, but serialisation is about the complex)
+    if (s.m.empty()) return false;
+    ref::Complex less = s.m;
+    Simplex last = s.m.filtration_order().back();
+    less.s.erase(last);
+    if (CONTIG && !contiguous(less)) return false;
+    build_from_model(st, less);
+    st.initialize_filtration();
+    if constexpr (HAS_FILT) st.insert_simplex(to_vh<ST>(last), (FV)s.m.filt(last)); else st.insert_simplex(to_vh<ST>(last));
+    return true;
+  }
+  // variants 1 and 4: add the first absent simplex whose facets are present (largest dimension first), then remove it
+  // again; variant 4 builds the filtration cache in between (stale and larger afterwards)
   std::vector<Simplex> cand = g_universe;
   std::sort(cand.begin(), cand.end(), [](const Simplex& a, const Simplex& b) { return a.size() != b.size() ? a.size() > b.size() : a < b; });
   for (auto& c : cand) {
@@ -50,6 +64,7 @@ static bool build(ST& st, const State& s) {
     build_from_model(st, s.m);
     double f = c.size() > 1 ? s.m.max_facet_filt(c) : 0;
     if constexpr (HAS_FILT) st.insert_simplex(to_vh<ST>(c), (FV)f); else st.insert_simplex(to_vh<ST>(c));
+    if (s.variant == 4) st.initialize_filtration();
     st.remove_maximal_simplex(st.find(to_vh<ST>(c)));
     return true;
   }
@@ -192,7 +207,8 @@ static void check_serialization(const State& A) {
     back2.deserialize(buf.get(), size, [](FV& f, const char* ptr) { return Gudhi::simplex_tree::deserialize_trivial(f, ptr); });
     if (!(back2 == st)) bad("deserialize(custom):not-equal-to-original", state_str(A));
   }
-  {  // text round trip
+  {  // text round trip (operator<< walks the filtration order: a stale cache must be dropped by the caller first)
+    if (A.variant >= 3) st.clear_filtration();
     std::stringstream ss;
     ss << st;
     ST back;
@@ -292,7 +308,8 @@ int main(int argc, char** argv) {
   }
 
   std::vector<State> states;
-  enumerate_models(F, [&](const ref::Complex& m) { for (int v = 0; v < 3; ++v) states.push_back({m, v}); });
+  // variants 3 and 4 (stale filtration cache) are only used as serialisation sources
+  enumerate_models(F, [&](const ref::Complex& m) { for (int v = 0; v < (part == "copy" ? 3 : 5); ++v) states.push_back({m, v}); });
   // target states for assignments / swap: a fixed small family (empty, one vertex, an edge, the full simplex, each variant)
   std::vector<State> targets;
   {
